@@ -248,4 +248,48 @@ theorem finish_length_le (r : List Rune) : (finish r).length ≤ r.length + 1 :=
   simp only [List.length_reverse] at h1
   omega
 
+/-! ### the formatter's marker window (its copy of the heredoc-end rule) -/
+
+/-- the formatter's `heredocClosingMarker` after the runes `l` of one heredoc body line
+    (`pushClosing` per rune, starting from the empty window of a fresh line) -/
+def closingWindow (marker l : List Rune) : List Rune :=
+  l.foldl (fun w ch => pushClosing w marker ch) []
+
+theorem pushClosing_window (m pre : List Rune) (c : Rune) :
+    pushClosing (pre.drop (pre.length - m.length)) m c
+      = (pre ++ [c]).drop ((pre ++ [c]).length - m.length) := by
+  unfold pushClosing
+  by_cases h : m.length ≤ pre.length
+  · have h1 : (List.drop (pre.length - m.length) pre ++ [c]).length > m.length := by
+      simp [List.length_drop]; omega
+    rw [if_pos h1]
+    have h2 : (pre ++ [c]).length - m.length = (pre.length - m.length) + 1 := by
+      simp; omega
+    rw [h2, ← List.drop_drop]
+    congr 1
+    rw [List.drop_append_of_le_length (by omega)]
+  · have h1 : ¬ (List.drop (pre.length - m.length) pre ++ [c]).length > m.length := by
+      simp [List.length_drop]; omega
+    rw [if_neg h1]
+    have h2 : (pre ++ [c]).length - m.length = 0 := by simp; omega
+    have h3 : pre.length - m.length = 0 := by omega
+    rw [h2, h3]; simp
+
+theorem closingWindow_gen (m : List Rune) : ∀ (l pre : List Rune),
+    l.foldl (fun w ch => pushClosing w m ch) (pre.drop (pre.length - m.length))
+      = (pre ++ l).drop ((pre ++ l).length - m.length) := by
+  intro l
+  induction l with
+  | nil => intro pre; simp
+  | cons c t ih =>
+    intro pre
+    simp only [List.foldl_cons]
+    rw [pushClosing_window, ih (pre ++ [c])]
+    simp
+
+theorem closingWindow_eq (m l : List Rune) :
+    closingWindow m l = l.drop (l.length - m.length) := by
+  have := closingWindow_gen m l []
+  simpa [closingWindow] using this
+
 end CaddyModel.C17
